@@ -2,6 +2,7 @@
 simulated transport pair ('full' wiring), with a harness SFTPServerInterface
 over a per-run scratch directory (modelled on tests/_stub_sftp.py) whose file
 handles can inject short reads and failing reads/writes."""
+import errno
 import os
 import shutil
 import tempfile
@@ -29,6 +30,20 @@ class Faults:
         self.reads = 0
         self.writes = 0
         self.log = []                 # (op, k, offset, length, outcome) of every handle read/write
+        self.p_raise = 0.0            # an application callback (handle or server-interface method) raises
+        self.raised = []              # (method, "before"|"after")
+
+    def pick_raise(self, name):
+        """-> None, "before" (the callback fails before doing anything) or "after" (it did its work, then
+        failed: a delayed error such as ENOSPC at close).  Drawn from the run's PRNG by the calling task."""
+        if not self.p_raise or not self.sim.holder():
+            return None
+        if not self.sim.choose_bool(self.p_raise):
+            return None
+        when = ("before", "after")[self.sim.choose(2)]
+        self.sim.fault("callback_raised")
+        self.raised.append((name, when))
+        return when
 
     def maybe_cut(self, op, k):
         c = self.cut_at
@@ -205,6 +220,27 @@ class StubSFTP(SFTPServerInterface):
             return os.readlink(self._realpath(path))
         except OSError as e:
             return SFTPServer.convert_errno(e.errno)
+
+
+def _raising(name, fn):
+    def wrapper(self, *a, **kw):
+        f = self.faults
+        when = f.pick_raise(name) if f is not None else None
+        if when == "before":
+            raise OSError(errno.ENOSPC, "simulated failure in %s" % name)
+        r = fn(self, *a, **kw)
+        if when == "after":
+            raise OSError(errno.ENOSPC, "simulated late failure in %s" % name)
+        return r
+    wrapper.__name__ = fn.__name__
+    return wrapper
+
+
+for _n in ("list_folder", "stat", "lstat", "open", "remove", "rename", "posix_rename", "mkdir", "rmdir", "chattr",
+           "symlink", "readlink"):
+    setattr(StubSFTP, _n, _raising("si." + _n, getattr(StubSFTP, _n)))
+for _n in ("read", "write", "stat", "chattr", "close"):
+    setattr(Handle, _n, _raising("handle." + _n, getattr(Handle, _n)))
 
 
 class SftpSession:
